@@ -28,6 +28,8 @@ pub fn hit_matches(query: &TextRef, hit: &Hit) -> (ret: bool)
         query.words@.len() > 0 && ret ==> hit.rmatches@.len() >= 1, // [C09 C05]
         // C03: a one-word query with a match passes
         query.words@.len() == 1 && hit.rmatches@.len() >= 1 ==> ret, // [C03 C04 C13]
+        // C13 / C14 (queries of several words): a hit with more than one match on either side passes
+        hit.rmatches@.len() >= 1 && !(hit.rmatches@.len() == 1 && hit.qmatches@.len() == 1) ==> ret, // [C13 C14]
         // C13: two matched words pass; a single match passes when it is finished
         query.words@.len() > 0 && hit.rmatches@.len() >= 2 ==> ret, // [C13 C14]
         query.words@.len() > 0 && hit.rmatches@.len() == 1 && hit.rmatches@[0].fin ==> ret, // [C13 C14]
